@@ -1200,8 +1200,11 @@ class PhasedVcfWriter(VcfAugmenter):
             pos = record.start
             if not record.alts:
                 continue
-            if len(record.alts) > 1 and not self._mav:
-                # we do not phase multiallelic sites unless requested
+            if len(record.alts) > 1 and (
+                not self._mav or len(record.alts) >= get_max_genotype_alleles()
+            ):
+                # we do not phase multiallelic sites unless requested, and VcfReader passes
+                # over records with more alleles than a Genotype can represent
                 continue
             if pos == prev_pos:
                 # duplicate position, skip it
